@@ -60,7 +60,7 @@ def ModInfo.intervals (mi : ModInfo) : List (Nat × Nat) :=
 
 structure Trace where
   mods : List ModInfo
-  evs : List Event               -- calls made by the poll thread itself, in order
+  evs : List Event               -- every function of a module called by the poll thread's own code, in order of time
   touches : List Touch           -- time stamps parameters received (whoever set them)
   loopStart : Nat                -- the clock when the start-up work (round, configured values) was over: the loop begins
   tEnd : Nat                     -- end of the observation
@@ -147,13 +147,17 @@ def mayPoll : Nat → List PollFlags.Decl → List Nat
 
 /-! ## clauses -/
 
-/-- parameters marked as not polled are never read by the poller; modules without polling are never polled -/
+/-- parameters marked as not polled are never read by the poller; modules without polling are never polled.
+`tr.evs` holds EVERY function of a module the poll thread's own code calls — in the loop, in the start-up round, and
+inside `writeInitParams` (there: the write functions of the start values) — so a read function called from any of these
+places is a `.read` event and has to be one of a polled parameter.  (What a module's own `doPoll` / `initialReads` /
+read or write function calls in turn is that module's business, not the poller's.) -/
 def NoPollNeverRead (tr : Trace) : Prop :=
   ∀ e ∈ tr.evs, match e.f with
     | .read p => ∃ mi, tr.mods[e.m]? = some mi ∧ mi.enabled = true ∧ p ∈ mi.polled
     | .doPoll => ∃ mi, tr.mods[e.m]? = some mi ∧ mi.enabled = true
     | .init => e.m < tr.mods.length
-    | .write => e.m < tr.mods.length
+    | .write _ => e.m < tr.mods.length
 
 instance (tr : Trace) : Decidable (NoPollNeverRead tr) := by
   unfold NoPollNeverRead
